@@ -391,10 +391,19 @@ impl Search {
         }
     }
 
+    pub fn raw_ev(&self, e: &Ev) -> String {
+        match e {
+            Ev::Timer => "timer".to_string(),
+            Ev::Batch(k) => format!("batch:{}", k),
+            Ev::Deliver(m) => crate::util::hex(&self.uni.msg(*m).bytes),
+        }
+    }
+
     pub fn describe_ev(&self, e: &Ev) -> String {
         match e {
             Ev::Deliver(m) => format!("deliver {}", self.uni.msg(*m).desc),
             Ev::Timer => "timer expires".into(),
+            Ev::Batch(k) => format!("batch {} arrives in the store", k),
         }
     }
 
@@ -846,7 +855,7 @@ pub fn run_configs(rep: &mut Report, property: &str, cfgs: Vec<Cfg>, validate: u
                 None => json!({
                     "engine": "proto", "config": cfg.name, "kind": "local", "node": rec.node,
                     "events": rec.history.iter().map(|e| s.describe_ev(e)).collect::<Vec<_>>(),
-                    "events_raw": rec.history.iter().map(|e| match e { Ev::Timer => "timer".to_string(), Ev::Deliver(m) => crate::util::hex(&s.uni.msg(*m).bytes) }).collect::<Vec<_>>(),
+                    "events_raw": rec.history.iter().map(|e| s.raw_ev(e)).collect::<Vec<_>>(),
                 }),
             };
             rep.violation(sig.clone(), format!("[{}] {}", cfg.name, f.what), replay);
